@@ -180,10 +180,16 @@ def run(ctx: Ctx, tier: str) -> Result:
     outs = set()
     for r in vt.rows:
         outs.add(norm(r.result) if r.result is not None else "None")
-    it_ok = any(x.startswith("'Iterator of type: %s' %") for x in outs)
-    size_ok = any(x == "'Size: %%s' %% len(%s)" % VV for x in outs)
+    from .common import fmt_parts
+    parts = {}
+    for r in vt.rows:
+        fp = fmt_parts(r.result) if r.result is not None else None
+        if fp is not None:
+            parts[fp[0]] = fp[1]
+    it_ok = any(k.startswith("Iterator of type: {") for k in parts)
+    size_ok = parts.get("Size: {}") == ["len(%s)" % VV]
     text_ok = any(x.startswith("str(%s)" % VV) or "safe_str(%s)" % VV in x or "str(%s)" % VV in x for x in outs)
-    sized_rows = [r for r in vt.rows if r.result is not None and norm(r.result) == "'Size: %%s' %% len(%s)" % VV]
+    sized_rows = [r for r in vt.rows if r.result is not None and (fmt_parts(r.result) or ("", []))[0] == "Size: {}"]
     pin_ok = bool(sized_rows) and all(any(pol and ("%s is dict" % T_) in norm(c) and "['frozenset', 'set', 'list', 'tuple']" in norm(c) for c, pol in r.conds) for r in sized_rows)
     if it_ok and size_ok and text_ok and pin_ok and len(outs) == 3:
         res.ok("C02.VAR", {"rendering": sorted(outs)})
@@ -242,8 +248,15 @@ def run(ctx: Ctx, tier: str) -> Result:
         a0, a1, a2 = [ctx.expand.expand(a, pd) for a in nv[0].args]
         key = "<elem>(list(%s.keys()))" % P(pd, 2)
         okd = len(a1) == 1 and a1[0] == "%s[%s]" % (P(pd, 2), key) and all(key in x for x in a0) and all(key in x for x in a2)
-        comp = [n for n in t.nodes_in(pd, ast.ListComp)]
-        okd = okd and len(comp) == 1 and all(norm(i) == "%s in %s" % (norm(comp[0].generators[0].target), pd.params[2]) for i in comp[0].generators[0].ifs)
+        # every key of the mapping: the construction sits in a loop / comprehension over the keys, guarded only by `key in value`
+        lps_ = paths.enclosing_loops(p, nv[0], pd)
+        conds_ = [(norm(c), pol) for c, pol in paths.conditions(p, nv[0], pd)]
+        over_keys = bool(lps_) and any("%s.keys()" % pd.params[2] in norm(getattr(l, "iter", None) or l.generators[0].iter) for l in lps_)
+        def key_present(c, pol):
+            return (pol and c.endswith(" in %s" % pd.params[2]) and " not in " not in c) or (not pol and c.endswith(" not in %s" % pd.params[2]))
+        conts = [n for n in t.nodes_in(pd, ast.Continue)]
+        conts_ok = all(any(key_present(norm(c), not pol) for c, pol in paths.conditions(p, n, pd)[-1:]) for n in conts)
+        okd = okd and over_keys and all(key_present(c, pol) for c, pol in conds_) and not list(t.nodes_in(pd, ast.Break)) and conts_ok
     if okd:
         res.ok("C02.CHILD", {"dict/object children": "name and value from the same key, every key"})
     else:
@@ -252,11 +265,18 @@ def run(ctx: Ctx, tier: str) -> Result:
     nl = ctor_calls(ctx, pl, "deep.processor.bfs.NodeValue")
     okl = False
     if len(nl) == 1 and len(nl[0].args) >= 2:
+        from .c05 import enumerate_index
         lps = [l for l in t.nodes_in(pl, ast.For)]
         cnt = norm(nl[0].args[0].args[0]) if isinstance(nl[0].args[0], ast.Call) and norm(nl[0].args[0].func) == "str" and nl[0].args[0].args else None
         incs = [n for n in t.nodes_in(pl, ast.AugAssign) if cnt and norm(n.target) == cnt]
-        okl = len(lps) == 1 and norm(nl[0].args[1]) == norm(lps[0].target) and cnt is not None and len(incs) == 1 and \
-            ctx.expand.expand(lps[0].iter, pl) in (["tuple(%s)" % P(pl, 2)], ["list(%s)" % P(pl, 2)])
+        if len(lps) == 1 and cnt is not None:
+            if enumerate_index(lps[0]) == cnt:
+                elem = norm(lps[0].target.elts[1])
+                src = ctx.expand.expand(lps[0].iter.args[0], pl)
+                okl = norm(nl[0].args[1]) == elem and not incs and src in (["tuple(%s)" % P(pl, 2)], ["list(%s)" % P(pl, 2)])
+            else:
+                okl = norm(nl[0].args[1]) == norm(lps[0].target) and len(incs) == 1 and \
+                    ctx.expand.expand(lps[0].iter, pl) in (["tuple(%s)" % P(pl, 2)], ["list(%s)" % P(pl, 2)])
     if okl:
         res.ok("C02.CHILD", {"sequence children": "named by their index, in order"})
     else:
